@@ -1,35 +1,13 @@
 package algo
 
 import (
-	"os"
 	"testing"
 
 	"github.com/junegunn/fzf/src/zzv"
 )
 
-// TestZZReplay runs one harness natively under the replay vector in $ZZV_REPLAY.
+// TestZZReplay runs harnesses natively under the replay vectors listed in $ZZV_REPLAY
+// and writes one JSON line per run to $ZZV_OUT.
 func TestZZReplay(t *testing.T) {
-	path := os.Getenv("ZZV_REPLAY")
-	if path == "" {
-		t.Skip("no replay")
-	}
-	r, err := zzv.Load(path)
-	if err != nil {
-		t.Fatal(err)
-	}
-	f := zzHarnesses[r.Harness]
-	if f == nil {
-		t.Fatalf("unknown harness %s", r.Harness)
-	}
-	end := zzv.RunFunc(f)
-	t.Logf("ZZEND %s", end)
-	for _, o := range zzv.Obs {
-		t.Logf("ZZOBS %s", o)
-	}
-	for _, f := range zzv.Failures {
-		t.Logf("ZZFAIL %s", f)
-	}
-	if end != "done" && end != "pruned" {
-		t.Logf("ZZFAIL panic")
-	}
+	zzv.ReplayAll(t, zzHarnesses)
 }
